@@ -683,7 +683,7 @@ def gen_e2e(r, pair=True):
         r.shuffle(evs)
     case = {"kind": "pair" if pair else "e2e", "freq": f, "k": k, "pid": r.choice([0, 0, 1, 5]), "events": evs,
             "opts": r.choice([[], ["--keep_prep"], ["--keep_prep", "-M"], ["-t"], ["--keep_prep", "--keep_names"],
-                              ["--disable_tb", "--keep_prep"]])}
+                              ["--disable_tb", "--keep_prep"], ["--drop_globals", "--keep_prep"], ["--drop_globals"]])}
     return case
 
 
